@@ -654,7 +654,8 @@ def rule_O2(ctx) -> None:
                 final += 1
         if in_loop and eq is False and not p_reset:
             missing_reset = missing_reset or p
-        if in_loop and eq is not False and not p_rec:
+        if eq is not False and not p_rec:
+            # also a path that never reaches the member loop: the bookkeeping may depend on membership only
             missing_rec = missing_rec or p
     name = "__setattr__:oneof-bookkeeping"
     if bad_return:
@@ -676,7 +677,10 @@ def rule_O2(ctx) -> None:
         ctx.refuted("O2", sel, "sibling-not-reset", mod.loc(fn), "a member of the group other than the assigned one is not reset to the placeholder on some path",
                     "m.a = 1; m.b = 2; bytes(m) contains both")
     elif missing_rec:
-        ctx.refuted("O2", sel, "selection-not-recorded", mod.loc(fn), "on some path the assigned member is not recorded as the selection of its group", "m.a = 1; which_one_of(m, 'g')")
+        ctx.refuted("O2", sel, "selection-not-recorded", mod.loc(fn),
+                    f"on the path { {show(k): v for k, v in missing_rec.valuation.items()} } the assigned member is not recorded as the selection of its group: whether a member becomes the "
+                    "selected one may depend on its being a member only (not on what its slot held before - optional members start at None, not at the placeholder)",
+                    "m.a = 1; which_one_of(m, 'g')")
     elif rec and reset:
         # the members that are reset come from a table of the class metadata: the complete member set of the group, or a
         # table whose construction can be shown not to be a snapshot of a half-built set
